@@ -32,6 +32,9 @@ type sweepScenario struct {
 	FaultKind sim.FaultKind
 	// SilentAfter: after that many environment steps the peers stop hearing from each other (-1: never)
 	SilentAfter int
+	// MineDuringPay: blocks that arrive while the taker's claim-payment loop runs (at its second and third
+	// height query), so that an attempt can fail and the window can close inside the loop
+	MineDuringPay uint32
 	// ThroughCsv: once the peers are silent the chain advances past the csv and the watchers report it,
 	// all inside the run whose crash points are swept
 	ThroughCsv bool
@@ -43,17 +46,20 @@ type sweepSpec struct {
 	final   func(*Hist, *stats.Collector) // optional closure + end-state check
 	silence bool                          // generate cut points where the peer goes silent
 	csv     bool                          // after the peer went silent the csv matures inside the swept run
+	chains  []string                      // restrict the scenario's chain
+	payMine bool                          // blocks arrive during the claim-payment loop and payments fail first
 }
 
 func (s sweepScenario) key() string {
-	return fmt.Sprintf("%s/%s/lnd=%v/%s:%s+%d/%d/silent@%d", s.Type, s.Chain, s.LND, s.FaultNode, s.FaultCall, s.FaultSkip, s.FaultKind, s.SilentAfter) + map[bool]string{true: "/csv", false: ""}[s.ThroughCsv]
+	return fmt.Sprintf("%s/%s/lnd=%v/%s:%s+%d/%d/silent@%d", s.Type, s.Chain, s.LND, s.FaultNode, s.FaultCall, s.FaultSkip, s.FaultKind, s.SilentAfter) + map[bool]string{true: "/csv", false: ""}[s.ThroughCsv] + fmt.Sprintf("/minepay%d", s.MineDuringPay)
 }
 
 var sweepFaultCalls = []string{"", "", "ln.ProbePayment", "ln.SpendableMsat", "ln.ReceivableMsat", "ln.DecodePayreq", "ln.GetPayreq", "msg.Send", "msg.Send", "store.UpdateData",
 	"wallet.CreateOpeningTransaction", "wallet.GetFlatOpeningTXFee", "wallet.CreatePreimageSpendingTransaction", "watcher.GetBlockHeight",
 	"pay:fee:fail", "pay:claim:fail", "pay:claim:err-pending", "pay:claim:err-settled"}
 
-func genSweepScenario(t *rapid.T, silence, csv bool) sweepScenario {
+func genSweepScenario(t *rapid.T, spec sweepSpec) sweepScenario {
+	silence, csv := spec.silence, spec.csv
 	s := sweepScenario{
 		SilentAfter: -1,
 		Type:        rapid.SampledFrom([]string{"out", "in"}).Draw(t, "swType"),
@@ -65,6 +71,14 @@ func genSweepScenario(t *rapid.T, silence, csv bool) sweepScenario {
 		s.FaultNode = rapid.SampledFrom([]string{"alice", "alice", "bob"}).Draw(t, "swFaultNode")
 		s.FaultSkip = rapid.IntRange(0, 2).Draw(t, "swFaultSkip")
 		s.FaultKind = rapid.SampledFrom([]sim.FaultKind{sim.FaultBefore, sim.FaultBefore, sim.FaultAfter}).Draw(t, "swFaultKind")
+	}
+	if len(spec.chains) > 0 {
+		s.Chain = rapid.SampledFrom(spec.chains).Draw(t, "swChainRestricted")
+	}
+	if spec.payMine {
+		// the first claim attempts fail cleanly while blocks arrive
+		s.FaultCall, s.FaultNode, s.FaultSkip = "pay:claim:fail", map[string]string{"out": "alice", "in": "bob"}[s.Type], rapid.IntRange(0, 2).Draw(t, "swPayFails")
+		s.MineDuringPay = rapid.SampledFrom([]uint32{0, 1, 30, 58, 59, 60, 61}).Draw(t, "swMineDuringPay")
 	}
 	if silence && rapid.Bool().Draw(t, "swGoesSilent") {
 		s.SilentAfter = rapid.IntRange(0, 12).Draw(t, "swSilentAfter")
@@ -108,6 +122,13 @@ func runSweepScenario(t *rapid.T, s sweepScenario, crashAt int, monitor func(*Hi
 			}
 			n.Faults[s.FaultCall] = append(q, s.FaultKind)
 		}
+	}
+	if s.MineDuringPay > 0 {
+		taker := h.A
+		if s.Type == "in" {
+			taker = h.B
+		}
+		taker.MineOnHeightCall[s.Chain] = []uint32{0, 0, s.MineDuringPay / 2, s.MineDuringPay - s.MineDuringPay/2}
 	}
 	h.W.CrashAt = crashAt
 	var err error
@@ -215,7 +236,7 @@ func crashSweep(t *rapid.T, col *stats.Collector, spec sweepSpec) {
 	if monitor == nil {
 		monitor = func(*stats.Collector) func(*Hist) { return func(*Hist) {} }
 	}
-	s := genSweepScenario(t, spec.silence, spec.csv)
+	s := genSweepScenario(t, spec)
 	sweepLenMu.Lock()
 	n, ok := sweepLen[s.key()]
 	sweepLenMu.Unlock()
@@ -316,4 +337,48 @@ func finalC26(h *Hist, col *stats.Collector) {
 func TestC26CrashSweep(t *testing.T) {
 	col := stats.Get("C26.sweep")
 	rapid.Check(t, func(t *rapid.T) { crashSweep(t, col, sweepSpec{csv: true, final: finalC26}) })
+}
+
+// monitorC04: every claim payment of a Liquid protocol-7 swap happens while the tip (at the call) is inside
+// [anchor, anchor+60) of the swap's persisted anchor, with the bounded route CLTV.
+func monitorC04(col *stats.Collector) func(h *Hist) {
+	seen := map[string]int{}
+	return func(h *Hist) {
+		for _, n := range h.nodes() {
+			calls := n.PayCallsCopy()
+			for i := seen[n.Name]; i < len(calls); i++ {
+				pc := calls[i]
+				if pc.Kind != "claim" {
+					continue
+				}
+				for _, sw := range n.Swaps() {
+					if sw.Data == nil || sw.Data.OpeningTxBroadcasted == nil || sw.Data.OpeningTxBroadcasted.Payreq != pc.Payreq || sw.Data.GetChain() != "lbtc" || sw.Data.GetProtocolVersion() != 7 {
+						continue
+					}
+					h.class("liquid-claim-payment")
+					anchor := uint64(sw.Data.StartingBlockHeight)
+					tip := uint64(pc.HeightLbc)
+					if !sw.Data.StartingBlockHeightSet || tip < anchor || tip >= anchor+60 {
+						h.stop = col.Violation(h.T, "C04/payment-outside-window", "%s: claim payment attempt for swap %s at liquid height %d, window is [%d,%d) (anchor set: %v)\n%s", n.Name, sw.SwapId.String()[:6], tip, anchor, anchor+60, sw.Data.StartingBlockHeightSet, h.dump())
+						return
+					}
+					if pc.MaxTotal != 32 {
+						h.stop = col.Violation(h.T, "C04/route-cltv-limit", "%s: claim payment with total route CLTV limit %d, want 32", n.Name, pc.MaxTotal)
+						return
+					}
+					if tip+2 >= anchor+60 {
+						h.class("payment-near-window-end")
+					}
+				}
+			}
+			seen[n.Name] = len(calls)
+		}
+	}
+}
+
+func TestC04CrashSweep(t *testing.T) {
+	col := stats.Get("C04.sweep")
+	rapid.Check(t, func(t *rapid.T) {
+		crashSweep(t, col, sweepSpec{monitor: monitorC04, chains: []string{"lbtc"}, payMine: true})
+	})
 }
